@@ -286,6 +286,24 @@ def collect_ignored(cirq, circuit, deep):
     return out
 
 
+def ignored_missing(cirq, cin, cout, deep):
+    """Ignored-tag operations of cin that are not (equal) in cout.  With deep=True the operations inside a sub-circuit are
+    compared inside the matching sub-circuit operation of the output; a sub-circuit operation that does not itself carry the
+    tag and was replaced as a whole (dropped as negligible, merged as an opaque unitary, unrolled) is not descended into."""
+    tops_in = [op for op in cin.all_operations() if IGN in op.tags]
+    tops_out = [op for op in cout.all_operations() if IGN in op.tags]
+    miss = multiset_missing(tops_in, tops_out)
+    if deep:
+        shell = lambda x: x.untagged.replace(circuit=cirq.FrozenCircuit()).with_tags(*x.tags)
+        outs = [op for op in cout.all_operations() if isinstance(op.untagged, cirq.CircuitOperation) and IGN not in op.tags]
+        for a in cin.all_operations():
+            if isinstance(a.untagged, cirq.CircuitOperation) and IGN not in a.tags:
+                j = next((j for j, b in enumerate(outs) if shell(a) == shell(b)), None)
+                if j is not None:
+                    miss.extend(ignored_missing(cirq, a.untagged.circuit, outs.pop(j).untagged.circuit, True))
+    return miss
+
+
 def multiset_missing(xs, ys):
     """elements of xs (with multiplicity) that are not in ys"""
     ys = list(ys)
@@ -705,6 +723,8 @@ def run_case(ctx, cirq, cfg, circuit, kind, deep, ignore, checks, case_no, prng_
         sig = f'{cfg.name}:raises:{type(e).__name__}:{error_class(str(e))}'
         if subcircuit_unitary_raises(cirq, circuit):
             sig = 'gate-defect:subcircuit-unitary-raises'
+        elif cfg.name == 'add_dynamical_decoupling' and stabilizer_effect_without_tableau_action(cirq, circuit):
+            sig = 'gate-defect:has-stabilizer-effect-but-clifford-act-on-fails'
         ctx.violation(sig, f'{cfg.id} raised {type(e).__name__}: {str(e)[:300]} (deep={deep}, ignore={ignore}) on\n{circuit}',
                       dict(kind='raises', error=traceback.format_exc()[-1500:], **rep))
         return
@@ -713,9 +733,7 @@ def run_case(ctx, cirq, cfg, circuit, kind, deep, ignore, checks, case_no, prng_
         ctx.violation(f'{cfg.name}:input-modified', f'{cfg.id} modified its argument: {desc}', dict(kind='input-modified', **rep))
     # (iii) ignored-tag operations are left untouched
     if ignore:
-        ign_in = collect_ignored(cirq, circuit, deep)
-        ign_out = collect_ignored(cirq, out, deep)
-        miss = multiset_missing(ign_in, ign_out)
+        miss = ignored_missing(cirq, circuit, out, deep)
         if miss:
             only_sub = all(isinstance(o.untagged, cirq.CircuitOperation) for o in miss)
             ctx.violation(f'{cfg.name}:ignored-op-touched' + (':subcircuit-unrolled' if only_sub else ''), f'{cfg.id}: operation(s) carrying the ignored tag were changed or removed: {miss[:3]!r}; {desc}\noutput:\n{out}',
@@ -918,6 +936,17 @@ def subcircuit_unitary_raises(cirq, circuit):
     return False
 
 
+def stabilizer_effect_without_tableau_action(cirq, circuit):
+    """an operation that claims a stabilizer effect but cannot act on a Clifford tableau (defect of the protocol pair, C13)"""
+    for op in circuit.all_operations():
+        try:
+            if op.gate is not None and cirq.has_stabilizer_effect(op):
+                cirq.CliffordGate.from_op_list([cirq.inverse(op)], list(op.qubits))
+        except Exception:
+            return True
+    return False
+
+
 def root_cause(cirq, cfg, circuit, out, deep):
     """Features of a failing case, computed on the real input/output, that name a recorded defect class (part of the signature)."""
     f = []
@@ -1111,8 +1140,11 @@ def symbolized_stream(ctx, cirq, checks, case_no, n):
                 expr, kind = semantic_check(cirq, rng, flatten_ops(cirq, ci), flatten_ops(cirq, co), 'same')
             except opsem.Unsupported:
                 continue
+            sym1 = set().union(*[cirq.parameter_names(o) for o in c.all_operations() if len(o.qubits) == 1] or [set()])
+            symn = set().union(*[cirq.parameter_names(o) for o in c.all_operations() if len(o.qubits) != 1] or [set()])
             checks.append(dict(case=case_no, what='semantics', stream=f'{cfg.id}:{kind}', expr=expr, cfg=cfg, desc=f'{cfg.id} resolver {i} on {str(c)[:400]}',
-                               rep=dict(rep, output=repr(out), output_diagram=str(out), resolver_index=i, new_sweep=repr(new_sweep), root_cause='')))
+                               rep=dict(rep, output=repr(out), output_diagram=str(out), resolver_index=i, new_sweep=repr(new_sweep),
+                                        root_cause='symbol-shared-with-multi-qubit-gate' if sym1 & symn else '')))
             ctx.count(cfg.id, [rep['circuit'], i], True, sample=dict(transformer=cfg.id, circuit=str(c)[:300], output=str(out)[:300], resolver=i))
     return case_no
 
